@@ -105,14 +105,27 @@ def check(col, prog, tier, profile, fixture=None):
         targets[nm] = util.need_body(crate, "Modular::<M>::%s" % nm)
         modes[nm] = "value"
     assign_of = {}
+    op_bodies = [b_ for b_ in crate.bodies if not b_.is_closure and (crate.impl_of(b_) or {}).get("of_trait")]
+    pre_A = util.analyser(util.private_helpers(crate, "Modular", exclude=op_bodies), features=("fncall",))
+
+    def calls_sem(x, y):
+        """x calls y: directly, or through a private helper that is handed the operator by name (`self.update(rhs, Add::add)`)"""
+        if any(util.callee_key(t) == y.key for bb, t in x.calls()):
+            return True
+        try:
+            Ix = pre_A(x)
+        except Exception:
+            return False
+        return any(e.kind == "call" and not e.extra.get("inlined") and (e.fn.get("resolved") or e.fn).get("def") == y.key for st_ in Ix.final_states for e in st_.event_list())
+
     for tr, nm in (("Add", "add"), ("Sub", "sub"), ("Mul", "mul")):
         vb = util.need_body(crate, "<Modular<M> as std::ops::%s>::%s" % (tr, nm))
         ab = util.need_body(crate, "<Modular<M> as std::ops::%sAssign>::%s_assign" % (tr, nm))
         assign_of[nm] = ab
         # the arithmetic lives in the binary operator (and `x op= y` is `*x = *x op y`), or in the assigning
         # operator (and `x op y` is `{ x op= y; x }`): prove whichever does not simply call the other
-        v_calls_a = any(util.callee_key(t) == ab.key for bb, t in vb.calls())
-        a_calls_v = any(util.callee_key(t) == vb.key for bb, t in ab.calls())
+        v_calls_a = calls_sem(vb, ab)
+        a_calls_v = calls_sem(ab, vb)
         if v_calls_a and not a_calls_v:
             targets[nm], modes[nm] = ab, "assign"
         else:
@@ -123,7 +136,7 @@ def check(col, prog, tier, profile, fixture=None):
     targets["neg"] = util.need_body(crate, "<Modular<M> as std::ops::Neg>::neg")
     modes["neg"] = "value"
     helpers = util.private_helpers(crate, "Modular", exclude=list(targets.values()))
-    A = util.analyser(helpers)
+    A = util.analyser(helpers, features=("fncall",))
     mdb = util.need_body(crate, "Modular::<M>::md")
     Imd = util.analyse(mdb)
     if not all(util.ret_term(st) == M for st in Imd.final_states):
@@ -344,7 +357,7 @@ def _families(col, crate, adt, targets, sfx, modes=None, assign_of=None, A=None)
         I = A(b)
         selfp = ("deref", ("param", 1, I.names.get(1)))
         for st in I.final_states:
-            calls = [e for e in st.event_list() if e.kind == "call"]
+            calls = [e for e in st.event_list() if e.kind == "call" and not e.extra.get("inlined")]
             ok = len(calls) == 1 and (calls[0].fn.get("resolved") or calls[0].fn).get("def") == want.key
             if ok and b is ab:
                 stores = [e for e in st.event_list() if e.kind == "store" and e.place == selfp]
@@ -360,7 +373,7 @@ def _families(col, crate, adt, targets, sfx, modes=None, assign_of=None, A=None)
                 col.obligation(False)
     # Div = Mul by inverse, in either direction
     dab = util.need_body(crate, "<Modular<M> as std::ops::DivAssign>::div_assign")
-    d_calls_a = any(util.callee_key(t) == dab.key for bb, t in divb.calls())
+    d_calls_a = any(util.callee_key(t) == dab.key for bb, t in divb.calls())   # (div_assign reaching div through a helper is the other direction)
     arith, deleg = (dab, divb) if d_calls_a else (divb, dab)
     I = A(arith)
     for st in I.final_states:
@@ -383,7 +396,7 @@ def _families(col, crate, adt, targets, sfx, modes=None, assign_of=None, A=None)
     I = A(deleg)
     selfp = ("deref", ("param", 1, I.names.get(1)))
     for st in I.final_states:
-        calls = [e for e in st.event_list() if e.kind == "call"]
+        calls = [e for e in st.event_list() if e.kind == "call" and not e.extra.get("inlined")]
         ok = len(calls) == 1 and (calls[0].fn.get("resolved") or calls[0].fn).get("def") == arith.key
         if ok and deleg is dab:
             stores = [e for e in st.event_list() if e.kind == "store" and e.place == selfp]
